@@ -157,14 +157,15 @@ End Crew.
 (* ================================================================== 2. constructors that build rows *)
 Section Rows.
 Variables mgr rsz crewsz : Z.
-Variable cols : nat.          (* items copied when the row storage is built (columns of a raw / values of a key) *)
+Variable colsf : Z -> nat.    (* items copied when the storage of row i is built (columns of a raw / values of key i): ANY function *)
 Variable haskey : bool.       (* one more item is copied by the step that links the row in (HashMultiMap: the key) *)
-Variable linkfail : bool.     (* linking the row in can throw (AddRaw / Insert); false for TreeSet::pvCopy's SetChild *)
-Definition width : nat := (cols + (if haskey then 1 else 0))%nat.
+Variable linkfail : bool.     (* linking the row in can throw (AddRaw / Insert); false for a nothrow link *)
+Variable stride : Z.          (* source items of row i start at index i * stride *)
+Definition keyw : nat := if haskey then 1%nat else 0%nat.
 
 (* DataTable::pvImportRaw / ArrayBucket(Params&, const ArrayBucket&): take storage, copy-construct the items; on a failure
    destroy the copies made so far and give the storage back *)
-Definition import_row (sr sb : Z) : M Z := fun s =>
+Definition import_row (cols : nat) (sr sb : Z) : M Z := fun s =>
   match p_alloc mgr rsz s with
   | (Val row, s1) =>
       let '((index, o), s2) := om_copy_loop sr sb row 0 0 cols s1 in
@@ -178,30 +179,30 @@ Definition import_row (sr sb : Z) : M Z := fun s =>
   end.
 
 (* pvDestroyRaw before the row is linked / valueArray.Clear(valueArrayParams): the [cols] items and the storage *)
-Definition drop_unlinked (row : Z) : M unit :=
+Definition drop_unlinked (cols : nat) (row : Z) : M unit :=
   p_touch_blk row ;;; om_destroy_n row 0 cols ;;; p_dealloc mgr row rsz.
-(* a linked row: all [width] items and the storage *)
-Definition drop_row (row : Z) : M unit :=
-  p_touch_blk row ;;; om_destroy_n row 0 width ;;; p_dealloc mgr row rsz.
-Fixpoint drop_rows (rows : list Z) : M unit :=
+(* a linked row (block, number of items in it): all its items and the storage *)
+Definition drop_row (rw : Z * nat) : M unit :=
+  p_touch_blk (fst rw) ;;; om_destroy_n (fst rw) 0 (snd rw) ;;; p_dealloc mgr (fst rw) rsz.
+Fixpoint drop_rows (rows : list (Z * nat)) : M unit :=
   match rows with
   | [] => ret tt
   | r :: rs => drop_row r ;;; drop_rows rs
   end.
 
 (* linking: mIndexes.AddRaw(raw) / mHashMap.Insert(key, std::move(valueArray)) - may throw; the key is copied last *)
-Definition link_row (row kr i : Z) : M unit :=
+Definition link_row (cols : nat) (row kr i : Z) : M unit :=
   (if linkfail then fallible else ret tt) ;;; (if haskey then p_copy (row, Z.of_nat cols) (kr, i) else ret tt).
 
 (* the loop of pvFill / of the HashMultiMap copy constructor; returns the rows linked so far even when it throws *)
-Fixpoint fill_loop (sr kr : Z) (i : Z) (n : nat) (rows : list Z) (s : rstate) : (list Z * outcome unit) * rstate :=
+Fixpoint fill_loop (sr kr : Z) (i : Z) (n : nat) (rows : list (Z * nat)) (s : rstate) : (list (Z * nat) * outcome unit) * rstate :=
   match n with
   | O => ((rows, Val tt), s)
   | S n' =>
-      match import_row sr (i * Z.of_nat cols) s with
+      match import_row (colsf i) sr (i * stride) s with
       | (Val row, s1) =>
-          match catch_rethrow (link_row row kr i) (drop_unlinked row) s1 with   (* catch (...) { pvDestroyRaw(raw); throw; } *)
-          | (Val _, s2) => fill_loop sr kr (i + 1) n' (row :: rows) s2
+          match catch_rethrow (link_row (colsf i) row kr i) (drop_unlinked (colsf i) row) s1 with   (* catch (...) { pvDestroyRaw(raw); throw; } *)
+          | (Val _, s2) => fill_loop sr kr (i + 1) n' ((row, (colsf i + keyw)%nat) :: rows) s2
           | (o, s2) => ((rows, o), s2)
           end
       | (Exc, s1) => ((rows, Exc), s1)
@@ -269,48 +270,6 @@ Definition hmm_ctor_then_destroy (guard : bool) (sr kr : Z) (n : nat) : M unit :
   finally (vcrew <- p_alloc mgr crewsz ;; hmm_body guard vcrew sr kr n) (p_dealloc mgr crew crewsz).
 
 End Rows.
-
-(* ================================================================== 3. TreeSet::pvCopy on a two-level tree *)
-Section TreeCopy2.
-Variables mgr nodesz parsz crewsz : Z.
-Variables rootitems leafitems : nat.
-
-(* pvCopy(root) (TreeSet.h:1031-1062) for an internal root with [nch] leaf children: Node::Create, the root's items, then
-   pvCopy(child) for every child (each with its own roll-back); catch: destroy the root's items, pvDestroy every child built
-   so far, dstNode->Destroy; rethrow.  Returns (root, children). *)
-Definition pv_copy2 (srr src : Z) (nch : nat) : M (Z * list Z) := fun s =>
-  match import_row mgr nodesz rootitems srr 0 s with
-  | (Val root, s1) =>
-      let '((kids, o), s2) := fill_loop mgr nodesz leafitems false false src src 0 nch [] s1 in
-      match o with
-      | Val _ => (Val (root, kids), s2)
-      | Exc => catch_rethrow throw (drop_rows mgr nodesz leafitems false kids ;;; drop_unlinked mgr nodesz rootitems root) s2
-      | Stuck => (Stuck, s2)
-      end
-  | (Exc, s1) => (Exc, s1)
-  | (Stuck, s1) => (Stuck, s1)
-  end.
-
-(* the rest of TreeSet(const TreeSet&, MemManager) once mNodeParams = [par] exists: pvCopy; on success the object lives and is
-   later destroyed (pvDestroy(root) recursively, then the params); on failure catch { pvDestroy(); mRootNode = mNodeParams =
-   nullptr; throw; } followed by ~TreeSet of the delegating constructor (fixed = false: the pre-806b9fe shape) *)
-Definition ts2_body (fixed : bool) (par srr src : Z) (nch : nat) : M unit := fun s =>
-  match pv_copy2 srr src nch s with
-  | (Val (root, kids), s1) =>
-      (drop_rows mgr nodesz leafitems false kids ;;; drop_unlinked mgr nodesz rootitems root ;;; p_dealloc mgr par parsz) s1
-  | (Exc, s1) =>
-      match (p_dealloc mgr par parsz ;;; (if fixed then ret tt else p_dealloc mgr par parsz)) s1 with
-      | (Stuck, s2) => (Stuck, s2)
-      | (_, s2) => (Exc, s2)
-      end
-  | (Stuck, s1) => (Stuck, s1)
-  end.
-
-Definition ts2_copy_then_destroy (fixed : bool) (srr src : Z) (nch : nat) : M unit :=
-  crew <- p_alloc mgr crewsz ;;
-  finally (par <- p_alloc mgr parsz ;; ts2_body fixed par srr src nch) (p_dealloc mgr crew crewsz).
-
-End TreeCopy2.
 
 (* ================================================================== 4. MemPool buffers across MergeFrom *)
 Section Pools.
